@@ -385,6 +385,8 @@ pub struct Exec {
     kcache_shadow: HashMap<usize, ((u8, u32, u32, u32), u32)>,
     kcache_lookups: usize,
     scan_op: Option<&'static str>,
+    /// the operation just run is a query (must change no later result: C16)
+    scan_query: bool,
     sig_of_ref: HashMap<Ref, u64>,
     /// a lazy `paths` iterator kept alive across other operations, and what it must yield
     pit: Option<Box<dyn Iterator<Item = Vec<i32>>>>,
@@ -445,6 +447,7 @@ impl Exec {
             kcache_shadow: HashMap::new(),
             kcache_lookups: 0,
             scan_op: None,
+            scan_query: false,
             sig_of_ref: HashMap::new(),
             pit: None,
             pit_expected: vec![],
@@ -1239,7 +1242,7 @@ impl Exec {
                 };
                 let tabs: Result<Vec<u64>, String> = refs.iter().map(|&r| self.walk(r)).collect();
                 match tabs {
-                    Err(m) => fails.push((vec!["C07", "C05"], format!("cache slot {} mentions a dead node: {}", slot, m))),
+                    Err(m) => fails.push((if self.scan_query { vec!["C07", "C05", "C16"] } else { vec!["C07", "C05"] }, format!("cache slot {} mentions a dead node: {}", slot, m))),
                     Ok(t) => {
                         let (want, got) = match &k {
                             OpKey::Ite(..) => (tt.ite(t[0], t[1], t[2]), t[3]),
@@ -1247,7 +1250,9 @@ impl Exec {
                             OpKey::Restrict(..) => (self.tt_cr(false, t[0], t[1]), t[2]),
                         };
                         if want != got {
-                            fails.push((vec!["C07"], format!("cache slot {}: entry {:?} -> {} is false (tables {:x?})", slot, k, show_ref(v), t)));
+                            // (the caches were clean after the previous step: an entry that is false now was written
+                            // by the operation just run — if that was a query, it changes later results: C16)
+                            fails.push((if self.scan_query { vec!["C07", "C16"] } else { vec!["C07"] }, format!("cache slot {}: entry {:?} -> {} is false (tables {:x?}){}", slot, k, show_ref(v), t, if self.scan_query { " — written by a query" } else { "" })));
                         }
                     }
                 }
@@ -1374,6 +1379,8 @@ impl Exec {
                     if self.since_scan >= self.scan_every || toks[0] == "gc" {
                         self.since_scan = 0;
                         self.scan_op = if self.scan_every == 1 { op_property(toks[0]) } else { None };
+                        self.scan_query = self.scan_every == 1
+                            && matches!(toks[0], "itec" | "implies" | "size" | "satcount" | "onesat" | "paths" | "desc" | "bracket" | "dot" | "low" | "high" | "topcof" | "pathsi.open" | "pathsi.next");
                         self.scan(toks[0] == "gc");
                     } else {
                         // cheap part of C06 every step
